@@ -555,6 +555,17 @@ def _check_read(c, ev, res, spec_c, order, name, a, ins, expect_ok, flt, P, stat
                 gl = {tuple(o.s): rl.array[0, j] for j, o in enumerate(rl.outputs)}
                 if set(gl) != set(exp) or any(abs(gl[o] - exp[o]) > 1e-8 for o in exp):
                     out.append(("analyzer", "post-selection given as a function gives a different table than the equivalent rule set"))
+            # the rule object attached while still EMPTY, the rules added afterwards (the object is held by reference)
+            if a[1]:
+                pso3 = lw.PostSelection()
+                an3 = emu.Analyzer(c)
+                an3.post_selection = pso3
+                for modes_, counts_ in sorted(a[1]):
+                    pso3.add(tuple(modes_), tuple(counts_))
+                r5 = an3.analyze(state(ins))
+                g5 = {tuple(o.s): r5.array[0, j] for j, o in enumerate(r5.outputs)}
+                if set(g5) != set(exp) or any(abs(g5[o] - exp[o]) > 1e-8 for o in exp):
+                    out.append(("analyzer", "a PostSelection attached while empty and filled afterwards gives a different table than the same rules attached complete"))
             first = sorted(exp)[0]
             tot = sum(exp.values())
             if tot > 1e-9 and len(exp) >= 3:
@@ -593,6 +604,14 @@ def _check_read(c, ev, res, spec_c, order, name, a, ins, expect_ok, flt, P, stat
                     break
             out += check_early(c, name, a, ins, lambda g, what: [("quick", "%s: distribution differs from the conditioned sampler distribution" % what)]
                                if any(abs(g.get(o, 0.0) - exp.get(o, 0.0) / tot) > 1e-8 for o in set(g) | set(exp)) else [], state)
+            if a[1]:
+                pso3 = lw.PostSelection()
+                q3 = emu.QuickSampler(c, state(ins), photon_counting=a[2], post_select=pso3)
+                for modes_, counts_ in sorted(a[1]):
+                    pso3.add(tuple(modes_), tuple(counts_))
+                got3 = {tuple(s.s): p for s, p in q3.probability_distribution.items()}
+                if any(abs(got3.get(o, 0.0) - exp.get(o, 0.0) / tot) > 1e-8 for o in set(exp) | set(got3)):
+                    out.append(("quick", "a PostSelection handed over while empty and filled afterwards gives a different distribution than the same rules handed over complete"))
             # the post-selection given as a function: first a different predicate from the same factory, then the real one
             if a[1]:
                 def factory(rules):
